@@ -88,7 +88,6 @@ pub const CONFIGS: &[Config] = &[
     cfg("krk-3tasks-d3-all-p2", KRKB, 3, false, 2, 9, true, true),
     cfg("krk-3tasks-d4-all", KRKB, 4, false, 1, 9, true, true),
     cfg("krk-3tasks-d5-warm", KRKB, 5, true, 1, 9, false, true),
-    cfg("krk-3tasks-d5-p2", KRKB, 5, false, 2, 9, false, true),
     cfg("kppkp-5tasks-d4", KPPKP, 4, false, 1, 9, false, true),
     cfg("kppkp-5tasks-d5", KPPKP, 5, false, 1, 3, false, true),
     cfg("ep-9tasks-d4", EPB, 4, false, 1, 2, false, true),
@@ -186,6 +185,7 @@ struct ConfigResult {
     cross_task_hits: u64,
     max_pre: u32,
     rounds: u32,
+    capped: bool,
 }
 
 fn policy_name(p: OrderPolicy) -> String {
@@ -220,7 +220,10 @@ fn explore_config(c: &Config, workers: usize, sink: &Sink, a: &Args, total_execs
     let n = names.len();
     let explorers: Vec<Explorer> = (0..workers).map(|_| make_explorer(n)).collect();
     let mut shared: FxHashSet<FullKey> = FxHashSet::default();
-    let mut res = ConfigResult { executions: 0, choice_points_max: 0, steps_total: 0, outcomes: BTreeMap::new(), cache_digests: BTreeSet::new(), traces: BTreeSet::new(), shared_keys: 0, conflicting_stores: 0, cross_task_hits: 0, max_pre: 0, rounds: 0 };
+    let capped = AtomicBool::new(false);
+    let cfg_start = std::time::Instant::now();
+    let cap_secs: u64 = if a.tier == "thorough" { 1500 } else { 150 };
+    let mut res = ConfigResult { executions: 0, choice_points_max: 0, steps_total: 0, outcomes: BTreeMap::new(), cache_digests: BTreeSet::new(), traces: BTreeSet::new(), shared_keys: 0, conflicting_stores: 0, cross_task_hits: 0, max_pre: 0, rounds: 0, capped: false };
     // determinism self-check: the default schedule twice must give identical traces
     if !c.light {
         let (r1, o1) = execute(&explorers[0], c, &pos, &names, &[], &shared)?;
@@ -255,10 +258,18 @@ fn explore_config(c: &Config, workers: usize, sink: &Sink, a: &Args, total_execs
         let stop = AtomicBool::new(false);
         std::thread::scope(|sc| {
             for ex in explorers.iter() {
-                let (queue, inflight, new_shared, results, err, stop, names, pos, round_shared) = (&queue, &inflight, &new_shared, &results, &err, &stop, &names, &pos, &round_shared);
+                let (queue, inflight, new_shared, results, err, stop, names, pos, round_shared, capped, cfg_start) = (&queue, &inflight, &new_shared, &results, &err, &stop, &names, &pos, &round_shared, &capped, &cfg_start);
                 sc.spawn(move || loop {
                     if stop.load(Ordering::SeqCst) {
                         break;
+                    }
+                    if cfg_start.elapsed().as_secs() > cap_secs {
+                        // wall cap per configuration: stop taking new schedules (reported as not exhaustive)
+                        capped.store(true, Ordering::SeqCst);
+                        queue.lock().unwrap().clear();
+                        if inflight.load(Ordering::SeqCst) == 0 {
+                            break;
+                        }
                     }
                     let job = {
                         let mut q = queue.lock().unwrap();
@@ -352,6 +363,7 @@ fn explore_config(c: &Config, workers: usize, sink: &Sink, a: &Args, total_execs
         res.executions = 0;
         res.traces.clear();
     }
+    res.capped = capped.load(Ordering::SeqCst);
     // verdict for this configuration
     if res.outcomes.len() != 1 {
         let mut it = res.outcomes.iter();
@@ -425,6 +437,10 @@ pub fn run(a: &Args) -> i32 {
         let t0 = std::time::Instant::now();
         match explore_config(c, workers, &sink, a, &total) {
             Ok(r) => {
+                if r.capped {
+                    rep.exhaustive = false;
+                    rep.notes.push(format!("configuration {}: wall cap hit after {} schedules; the bounds stated for it were not completed", c.name, r.executions));
+                }
                 let expected: BTreeSet<String> = r.outcomes.keys().cloned().collect();
                 if !c.light {
                     free_runs += free_running(c, &expected, &sink, a);
